@@ -179,6 +179,15 @@ Theorem C07_supply_keeps_cleanup_memory_fixed :
   keep_volatile_on_supply = true -> C07_supply_keeps_cleanup_memory.
 Proof. exact supply_keeps_cleanup_memory_fixed. Qed.
 
+(* Finding (volatile-redeclared-regular, findings.d/C07-volatile-redeclared-regular.json): the same memory over a
+   re-declaration as a regular output, File.initialize_row(PLANNED): kept for BUILT / OUTDATED, LOST for VOLATILE. *)
+Theorem C07_redeclare_keeps_cleanup_memory_hashed :
+  forall s, memN s bd_hashed_states = true -> queued_on_delete (init_row_state FS_PLANNED s) = true.
+Proof. exact redeclare_keeps_cleanup_memory_hashed. Qed.
+
+Theorem C07_redeclare_keeps_cleanup_memory_refuted : ~ redeclare_keeps_cleanup_memory.
+Proof. exact redeclare_keeps_cleanup_memory_refuted. Qed.
+
 (* Finding (symlink-output-left-dangling, findings.d/C07-symlink-output-left-dangling.json): "whatever is queued, can
    be unlinked and -- unless volatile -- reads as exactly the recorded hash when the cleanup starts, is gone when
    remove_deletable_files ends".  True for regular files whatever the shape of the loop (C07_orphans_removed);
